@@ -29,7 +29,8 @@ where
 {
     fn draw_batch(&mut self, item_pixels: I) -> Result<(), DI::Error> {
         //  Get the pixels for the item to be rendered.
-        let pixels = item_pixels.into_iter();
+        //  (the iterators below poll it again after it has ended)
+        let pixels = item_pixels.into_iter().fuse();
         //  Batch the pixels into Pixel Rows.
         let rows = to_rows(pixels);
         //  Batch the Pixel Rows into Pixel Blocks.
